@@ -1104,3 +1104,300 @@ Proof.
   rewrite Hu in G. rewrite Ha in H3.
   destruct ad; [discriminate|]. destruct (driver_alive s); [discriminate|]. auto.
 Qed.
+
+(* ---------------------------------------------------------------------- *)
+(* Part 3: multishot accept                                                 *)
+
+Definition mk_live (k : mkern) : bool := match k with MKNone => false | _ => true end.
+
+Record MInv (s : mst) : Prop := mkMInv {
+  mi_sum : accepted s = cq s + queue s + held s + mclosed s + mlost s;
+  mi_drv : m_drv s = mk_live (mk s);
+  mi_queue : 1 <= queue s -> m_user s = true \/ m_drv s = true;
+  mi_lost : 1 <= mlost s -> m_uring s = true /\ m_alive s = false;
+  mi_cq : 1 <= cq s -> m_uring s = true /\ m_alive s = true /\ mk s = MKArmed;
+  mi_dead : m_alive s = false -> mk s = MKNone /\ cq s = 0 /\ m_cancel s = false;
+  mi_user : m_user s = true -> ms s = MPolled /\ m_alive s = true;
+  mi_cancel : m_cancel s = true -> m_uring s = true /\ m_user s = false /\ (mk s = MKQueued \/ mk s = MKArmed);
+  mi_final : mk s <> MKFinal;
+  mi_poll : m_uring s = false -> cq s = 0 /\ mk s <> MKQueued /\ queue s + (if mk_live (mk s) then 1 else 0) <= 1;
+  mi_orphan : m_drv s = true -> m_user s = true \/ ms s = MDropped
+}.
+
+Lemma minv_init ur : MInv (minit ur).
+Proof. constructor; cbn; intros; try lia; try discriminate; auto; try (split; discriminate); try (repeat split; try lia; discriminate). Qed.
+
+Ltac msolve :=
+  constructor;
+  cbn [m_uring ms mk backlog cq queue held mclosed mlost accepted m_cancel m_user m_drv m_alive mk_live] in *;
+  intros; subst;
+  repeat match goal with
+  | H : ?a = ?a -> _ |- _ => specialize (H eq_refl)
+  | H : ?P -> _, H' : ?P |- _ => specialize (H H')
+  | H : _ /\ _ |- _ => destruct H
+  | H : _ \/ _ |- _ => destruct H
+  end;
+  try lia; try discriminate; try congruence;
+  try (repeat split; try lia; try discriminate; try congruence; auto; fail);
+  try tauto.
+
+Lemma mstep_inv s l s' : MInv s -> mstep s l = Some s' -> MInv s'.
+Proof.
+  intros HI H. destruct s as [ur st k b c q h cl lo ac cn us dr al].
+  destruct HI as [Hs Hd Hq Hl Hc Hdead Hu Hcn Hf Hp Ho].
+  cbn [m_uring ms mk backlog cq queue held mclosed mlost accepted m_cancel m_user m_drv m_alive mk_live] in *.
+  destruct l; cbn [mstep m_uring ms mk backlog cq queue held mclosed mlost accepted m_cancel m_user m_drv m_alive negb] in H.
+  - (* poll *)
+    destruct al; cbn [negb] in H; [|discriminate].
+    destruct st; try discriminate; destruct us; destruct ur; try destruct q; try destruct b;
+      inversion H; subst s'; destruct k; msolve.
+  - (* drop *)
+    destruct st; try discriminate; destruct ur; unfold msettle in H;
+      cbn [m_uring ms mk backlog cq queue held mclosed mlost accepted m_cancel m_user m_drv m_alive negb andb] in H;
+      destruct dr, us, al, k; cbn [negb andb] in H; inversion H; subst s'; msolve.
+  - (* connect *)
+    unfold kaccept in H.
+    cbn [m_uring ms mk backlog cq queue held mclosed mlost accepted m_cancel m_user m_drv m_alive] in H.
+    destruct k, ur, al; inversion H; subst s'; msolve.
+  - (* drive *)
+    destruct al; cbn [negb] in H; [|discriminate].
+    destruct ur.
+    + unfold kaccept, msettle in H.
+      destruct k; cbn [m_uring ms mk backlog cq queue held mclosed mlost accepted m_cancel m_user m_drv m_alive negb andb] in H;
+        destruct cn; cbn [andb negb] in H;
+        cbn [m_uring ms mk backlog cq queue held mclosed mlost accepted m_cancel m_user m_drv m_alive negb andb] in H;
+        destruct us, dr; cbn [negb andb] in H; inversion H; subst s'; msolve.
+    + unfold msettle in H. destruct k; try (inversion H; subst s'; msolve; fail).
+      destruct b; [inversion H; subst s'; msolve|].
+      cbn [m_uring ms mk backlog cq queue held mclosed mlost accepted m_cancel m_user m_drv m_alive negb andb] in H.
+      destruct us; cbn [negb andb] in H; inversion H; subst s'; msolve.
+  - (* user drop *)
+    destruct h; [discriminate|]. inversion H; subst s'. msolve.
+  - (* driver drop *)
+    destruct al; cbn [negb] in H; [|discriminate].
+    destruct st; try discriminate; unfold msettle in H;
+      cbn [m_uring ms mk backlog cq queue held mclosed mlost accepted m_cancel m_user m_drv m_alive negb andb] in H;
+      destruct us; cbn [negb andb] in H; inversion H; subst s'; destruct lo, c, ur, k; msolve.
+Qed.
+
+Lemma msteps_inv ls : forall s s', MInv s -> msteps s ls = Some s' -> MInv s'.
+Proof.
+  induction ls as [|l r IH]; cbn [msteps]; intros s s' HI H.
+  - inversion H; subst; exact HI.
+  - destruct (mstep s l) as [s1|] eqn:E; [|discriminate]. eapply IH; [|exact H]. eapply mstep_inv; eauto.
+Qed.
+
+Theorem multishot_queued_closed ur ls s :
+  msteps (minit ur) ls = Some s ->
+  accepted s = cq s + queue s + held s + mclosed s + mlost s /\
+  (1 <= queue s -> m_user s = true \/ m_drv s = true) /\
+  (m_user s = false -> m_drv s = false -> queue s = 0) /\
+  (1 <= mlost s -> m_uring s = true /\ m_alive s = false) /\
+  (m_settled s = true ->
+     cq s = 0 /\ queue s = 0 /\ held s = 0 /\ accepted s = mclosed s + mlost s).
+Proof.
+  intros H. pose proof (msteps_inv ls _ _ (minv_init ur) H) as [Hs Hd Hq Hl Hc Hdead Hu Hcn Hf Hp Ho].
+  split; [exact Hs|]. split; [exact Hq|]. split.
+  { intros A B. destruct (queue s) eqn:E; [reflexivity|]. destruct Hq as [X|X]; [lia| |]; congruence. }
+  split; [exact Hl|].
+  unfold m_settled. intros Hset. repeat (apply andb_true_iff in Hset; destruct Hset as [Hset ?]).
+  apply Nat.eqb_eq in H1.
+  assert (Hms : ms s = MDropped) by (destruct (ms s); try discriminate; reflexivity).
+  assert (Hus : m_user s = false).
+  { destruct (m_user s) eqn:E; [|reflexivity]. destruct (Hu eq_refl) as [X _]. congruence. }
+  assert (Hk : mk s = MKNone /\ cq s = 0).
+  { apply orb_true_iff in H0. destruct H0 as [A|A].
+    - destruct (m_alive s); [discriminate|]. destruct (Hdead eq_refl) as (X & Y & _). auto.
+    - apply andb_true_iff in A. destruct A as [A B]. apply Nat.eqb_eq in B.
+      destruct (mk s); try discriminate. auto. }
+  destruct Hk as [Hk Hcq]. rewrite Hk in Hd. cbn in Hd.
+  assert (Hqz : queue s = 0).
+  { destruct (queue s) eqn:E; [reflexivity|]. destruct Hq as [X|X]; [lia| |]; congruence. }
+  repeat split; try assumption. lia.
+Qed.
+
+(* drop the stream, one driver turn: nothing produced so far is left unowned *)
+Theorem multishot_drop_then_turn ur ls s s1 s2 :
+  msteps (minit ur) ls = Some s -> mstep s MDrop = Some s1 -> mstep s1 MDrive = Some s2 ->
+  cq s2 = 0 /\ queue s2 = 0 /\ mlost s2 = 0 /\ accepted s2 = held s2 + mclosed s2.
+Proof.
+  intros H H1 H2.
+  pose proof (msteps_inv ls _ _ (minv_init ur) H) as HI.
+  pose proof (mstep_inv _ _ _ HI H1) as HI1. pose proof (mstep_inv _ _ _ HI1 H2) as HI2.
+  destruct HI2 as [Hs2 Hd2 Hq2 Hl2 Hc2 Hdead2 Hu2 Hcn2 Hf2 Hp2 Ho2].
+  destruct s as [ur0 st k b c q h cl lo ac cn us dr al].
+  destruct HI as [Hs Hd Hq Hl Hc Hdead Hu Hcn Hf Hp Ho].
+  cbn [m_uring ms mk backlog cq queue held mclosed mlost accepted m_cancel m_user m_drv m_alive mk_live] in *.
+  cbn [mstep m_uring ms mk backlog cq queue held mclosed mlost accepted m_cancel m_user m_drv m_alive negb] in H1.
+  assert (Hal : al = true).
+  { destruct al; [reflexivity|]. destruct st; try discriminate; destruct ur0; unfold msettle in H1;
+      cbn [m_uring ms mk backlog cq queue held mclosed mlost accepted m_cancel m_user m_drv m_alive negb andb] in H1;
+      destruct dr, us, k; cbn [negb andb] in H1; inversion H1; subst s1; cbn in H2; discriminate. }
+  subst al.
+  assert (Hlo : lo = 0) by (destruct lo; [reflexivity|]; destruct Hl as [_ X]; [lia|discriminate]).
+  subst lo.
+  destruct st; try discriminate; destruct ur0; unfold msettle in H1;
+    cbn [m_uring ms mk backlog cq queue held mclosed mlost accepted m_cancel m_user m_drv m_alive negb andb] in H1;
+    destruct dr, us, k; cbn [negb andb] in H1; inversion H1; subst s1; clear H1;
+    try (exfalso; first [congruence | discriminate | (destruct (Hu eq_refl); discriminate)
+                         | (destruct (Hcn eq_refl) as (_ & X & _); discriminate)
+                         | (destruct (Ho eq_refl); discriminate)
+                         | (destruct (Hcn eq_refl) as (_ & _ & [X|X]); discriminate)]);
+    cbn [mstep kaccept msettle m_uring ms mk backlog cq queue held mclosed mlost accepted m_cancel m_user m_drv m_alive negb andb] in H2;
+    try destruct cn; try destruct b;
+    cbn [mstep kaccept msettle m_uring ms mk backlog cq queue held mclosed mlost accepted m_cancel m_user m_drv m_alive negb andb] in H2;
+    inversion H2; subst s2;
+    cbn [m_uring ms mk backlog cq queue held mclosed mlost accepted m_cancel m_user m_drv m_alive mk_live] in *;
+    repeat split; try lia;
+    try (destruct q; [lia|]; destruct Hq as [X|X]; [lia|discriminate|discriminate]).
+Qed.
+
+(* ---------------------------------------------------------------------- *)
+(* Part 1b: the waker that is woken is the one of the latest Pending poll   *)
+
+Lemma pend_back_upd l c p c' :
+  p <> CPending ->
+  option_map pc (nth_error (upd l c (w_pc p)) c') = Some CPending ->
+  option_map pc (nth_error l c') = Some CPending.
+Proof.
+  intros Hp H. destruct (nth_error (upd l c (w_pc p)) c') as [y|] eqn:E; [|discriminate].
+  apply nth_upd_inv in E. destruct E as [(-> & x & Hx & ->)|(Hne & E)].
+  - cbn in H. congruence.
+  - rewrite E. exact H.
+Qed.
+
+Lemma pend_back_updf l c (f : closer -> closer) c' :
+  (forall x, pc (f x) <> CPending) ->
+  option_map pc (nth_error (upd l c f) c') = Some CPending ->
+  option_map pc (nth_error l c') = Some CPending.
+Proof.
+  intros Hp H. destruct (nth_error (upd l c f) c') as [y|] eqn:E; [|discriminate].
+  apply nth_upd_inv in E. destruct E as [(-> & x & Hx & ->)|(Hne & E)].
+  - cbn in H. exfalso. apply (Hp x). congruence.
+  - rewrite E. exact H.
+Qed.
+
+Lemma pend_back_app l x c' :
+  pc x <> CPending ->
+  option_map pc (nth_error (l ++ [x]) c') = Some CPending ->
+  option_map pc (nth_error l c') = Some CPending.
+Proof.
+  intros Hp H. destruct (Nat.lt_ge_cases c' (length l)) as [Hlt|Hge].
+  - rewrite nth_error_app1 in H by exact Hlt. exact H.
+  - rewrite nth_error_app2 in H by exact Hge. destruct (c' - length l) as [|[|m]]; cbn in H; try discriminate.
+    congruence.
+Qed.
+
+(* effect of running the Drop that was started last *)
+Lemma finish_flags g s1 ds :
+  Inv g s1 -> droppers s1 = ds ++ [DCount] ->
+  closers (finish_drops g s1) = closers s1 /\
+  strong (finish_drops g s1) = strong s1 - 1 /\
+  (waker (finish_drops g s1) = true -> waker s1 = true) /\
+  (wwoken (finish_drops g s1) = true ->
+     wwoken s1 = true \/ (waker s1 = true /\ waker (finish_drops g s1) = false)).
+Proof.
+  intros [Hc H0 H1 Hcl Hle Hge Hf Hgo] Hdr.
+  destruct s1 as [n w wk ww f c h o fg cs dr]. cbn [droppers] in Hdr. subst dr.
+  cbn [strong waits waker wwoken fd closes handles ops forgotten closers droppers] in *.
+  rewrite sumf_app in Hc. cbn in Hc.
+  assert (Hn : 1 <= n) by lia.
+  assert (Hfd : n = 1 -> f = FShared).
+  { intros E. assert (sh f = 1) by (apply H1; lia). destruct f; cbn in *; try lia. reflexivity. }
+  rewrite (drop_run g n w wk ww f c h o fg cs ds Hn Hfd).
+  cbn [strong waits waker wwoken fd closes handles ops forgotten closers droppers].
+  repeat split.
+  - destruct ((n =? 2) && w); [discriminate|auto].
+  - destruct ((n =? 2) && w); [|auto]. destruct ww, wk; cbn; auto; discriminate.
+Qed.
+
+(* what a macro step other than a poll does to the flags and to the set of Pending closers *)
+Lemma ustep_effect g s l s' :
+  closer_release_wakes g = true -> UInv g s -> ustep g s l = Some s' ->
+  (forall c, l <> UPoll c) ->
+  (forall c, pc_at s' c = Some CPending -> pc_at s c = Some CPending) /\
+  (waker s' = true -> waker s = true) /\
+  (wwoken s' = true -> wwoken s = true \/ (waker s = true /\ waker s' = false) \/ strong s' = 0).
+Proof.
+  intros Hflag HU H Hnp.
+  pose proof HU as [HI HW Hd Hreg Hwok].
+  pose proof HI as [Hc H0 H1 Hcl Hle Hge Hf Hgo].
+  unfold pc_at.
+  assert (Hspawn : forall lab s1,
+     step g s lab = Some s1 -> droppers s1 = droppers s ++ [DCount] ->
+     waker s1 = waker s -> wwoken s1 = wwoken s ->
+     (forall c, option_map pc (nth_error (closers s1) c) = Some CPending ->
+                option_map pc (nth_error (closers s) c) = Some CPending) ->
+     (forall c, option_map pc (nth_error (closers (finish_drops g s1)) c) = Some CPending ->
+                option_map pc (nth_error (closers s) c) = Some CPending) /\
+     (waker (finish_drops g s1) = true -> waker s = true) /\
+     (wwoken (finish_drops g s1) = true ->
+        wwoken s = true \/ (waker s = true /\ waker (finish_drops g s1) = false) \/ strong (finish_drops g s1) = 0)).
+  { intros lab s1 Hs Hdr Hwk Hww Hcl1.
+    pose proof (step_inv g s lab s1 HI Hs) as HI1.
+    destruct (finish_flags g s1 (droppers s) HI1 Hdr) as (A & B & C & D).
+    rewrite A, <- Hwk, <- Hww. split; [exact Hcl1|]. split; [exact C|].
+    intros E. destruct (D E) as [X|X]; auto. }
+  destruct l; unfold ustep in H; try (exfalso; eapply Hnp; reflexivity).
+  - (* clone *) cbn [step] in H. destruct (handles s); [discriminate|]. inversion H; subst s'. cbn; auto.
+  - (* op start *) cbn [step] in H. destruct (handles s); [discriminate|]. inversion H; subst s'. cbn; auto.
+  - (* op finish *)
+    destruct (step g s LOpFinish) as [s1|] eqn:E; [|discriminate]. inversion H; subst s'.
+    eapply Hspawn; eauto; cbn [step] in E; destruct (ops s); try discriminate; inversion E; subst s1; cbn; auto.
+  - (* drop handle *)
+    destruct (step g s LDropHandle) as [s1|] eqn:E; [|discriminate]. inversion H; subst s'.
+    eapply Hspawn; eauto; cbn [step] in E; destruct (handles s); try discriminate; inversion E; subst s1; cbn; auto.
+  - (* take *)
+    cbn [step] in H. destruct (handles s); [discriminate|]. inversion H; subst s'.
+    cbn [closers waker wwoken strong]. split; [|auto].
+    intros c Hp. eapply pend_back_app; [|exact Hp]. destruct close; cbn; discriminate.
+  - (* future dropped *)
+    destruct (step g s (LFutDrop c)) as [s1|] eqn:E; [|discriminate]. inversion H; subst s'. clear H.
+    pose proof E as E'. cbn [step] in E'. unfold fut_drop in E'.
+    destruct (nth_error (closers s) c) as [x|] eqn:Hx; [|discriminate].
+    assert (Hback : forall p, p <> CPending -> forall c',
+              option_map pc (nth_error (upd (closers s) c (w_pc p)) c') = Some CPending ->
+              option_map pc (nth_error (closers s) c') = Some CPending).
+    { intros p Hp c'. apply pend_back_upd. exact Hp. }
+    destruct (pc x) eqn:Hpc; try discriminate.
+    + destruct (unpolled_close_drops g).
+      * inversion E'. rewrite H2 in *.
+        eapply Hspawn; eauto; subst s1; cbn [droppers waker wwoken closers spawn_drop set_droppers set_closers]; auto.
+        apply Hback. discriminate.
+      * inversion E'. rewrite H2 in *. rewrite finish_drops_idle by (subst s1; exact Hd).
+        subst s1. cbn [closers waker wwoken strong set_closers]. split; [apply Hback; discriminate|auto].
+    + rewrite Hflag in E'. cbn [negb] in E'. inversion E'. rewrite H2 in *.
+      eapply Hspawn; eauto; subst s1; cbn [droppers waker wwoken closers spawn_drop set_droppers set_closers]; auto.
+      apply Hback. discriminate.
+    + rewrite Hflag in E'. cbn [negb] in E'. inversion E'. rewrite H2 in *.
+      eapply Hspawn; eauto; subst s1; cbn [droppers waker wwoken closers spawn_drop set_droppers set_closers]; auto.
+      apply Hback. discriminate.
+    + inversion E'. rewrite H2 in *. rewrite finish_drops_idle by (subst s1; exact Hd).
+      subst s1. cbn [closers waker wwoken strong set_closers]. split; [apply Hback; discriminate|auto].
+    + inversion E'. rewrite H2 in *. rewrite finish_drops_idle by (subst s1; exact Hd).
+      subst s1. cbn [closers waker wwoken strong set_closers]. split; [apply Hback; discriminate|auto].
+  - (* owner drop *)
+    cbn [step] in H. destruct (nth_error (closers s) c) as [x|] eqn:Hx; [|discriminate].
+    destruct (pc x) eqn:Hpc; try discriminate. destruct (cf x); [discriminate|]. inversion H; subst s'.
+    unfold close_fd. cbn [closers waker wwoken strong]. rewrite orb_false_r.
+    split; [intros c'; apply pend_back_upd; discriminate|auto].
+  - (* close op runs *)
+    cbn [step] in H. destruct (nth_error (closers s) c) as [x|] eqn:Hx; [|discriminate].
+    assert (Hs0 : gonepc (pc x) = true -> strong s = 0).
+    { intros Eg. apply Hgo. pose proof (sumf_nth_le gp _ _ _ Hx) as Hg. unfold gp in Hg at 1. rewrite Eg in Hg. exact Hg. }
+    destruct (pc x) eqn:Hpc; try discriminate; inversion H; subst s'; unfold close_fd;
+      cbn [closers waker wwoken strong];
+      (split; [intros c'; apply pend_back_upd; discriminate|]); split; auto;
+      intros _; right; right; apply Hs0; reflexivity.
+  - (* close op cancelled *)
+    cbn [step] in H. destruct (nth_error (closers s) c) as [x|] eqn:Hx; [|discriminate].
+    destruct (pc x) eqn:Hpc; try discriminate.
+    destruct (cancelled_close_closes g); inversion H; subst s'; unfold close_fd;
+      cbn [closers waker wwoken strong set_closers]; rewrite ?orb_false_r;
+      (split; [intros c'; apply pend_back_upd; discriminate|auto]).
+  - (* try_unwrap *)
+    cbn [step] in H. destruct (handles s); [discriminate|].
+    destruct (strong s =? 1); inversion H; subst s'; [|auto].
+    cbn [closers waker wwoken strong]. split; [|auto].
+    intros c Hp. eapply pend_back_app; [|exact Hp]. cbn. discriminate.
+Qed.
